@@ -35,15 +35,13 @@ def dft_upsample(
     du = np.ceil(1.5 * up).astype(int)
     row = np.arange(-du, du + 1)
     col = np.arange(-du, du + 1)
-    r_shift = shift[0] - M // 2
-    c_shift = shift[1] - N // 2
+    # Inverse DFT of F sampled at shift + row / up (rows) and shift + col / up (columns):
+    # the frequency of bin k is ifftshift(arange(M))[k] - M // 2
+    freq_row = xp.fft.ifftshift(xp.arange(M)) - M // 2
+    freq_col = xp.fft.ifftshift(xp.arange(N)) - N // 2
 
-    kern_row = np.exp(
-        -2j * np.pi / (M * up) * np.outer(row, xp.fft.ifftshift(xp.arange(M)) - M // 2 + r_shift)
-    )
-    kern_col = np.exp(
-        -2j * np.pi / (N * up) * np.outer(xp.fft.ifftshift(xp.arange(N)) - N // 2 + c_shift, col)
-    )
+    kern_row = np.exp(2j * np.pi / M * np.outer(shift[0] + row / up, freq_row))
+    kern_col = np.exp(2j * np.pi / N * np.outer(freq_col, shift[1] + col / up))
     return xp.real(kern_row @ F @ kern_col)
 
 
@@ -142,7 +140,9 @@ def cross_correlation_shift(
         except (IndexError, ValueError):
             dxf = dyf = 0.0
 
-        shifts = np.array([x0, y0]) + (np.array(peak) - upsample_factor) / upsample_factor
+        # the centre of the upsampled patch (offset 0) sits at index ceil(1.5 * upsample_factor)
+        center = int(np.ceil(1.5 * upsample_factor))
+        shifts = np.array([x0, y0]) + (np.array(peak) - center) / upsample_factor
         shifts += np.array([dxf, dyf]) / upsample_factor
 
     shifts = (shifts + 0.5 * np.array(cc.shape)) % cc.shape - 0.5 * np.array(cc.shape)
